@@ -139,7 +139,7 @@ func c20() *core.Check {
 			li.IsSQLi(s)
 		},
 		ColdStartVerify: c20ColdVerify,
-		Rule: "all entries of the five live tables (read through the accessors after package initialisation) are checked against the well-formedness predicates; every entry of baseline/tables.json (snapshot of the pinned tree) must be present with the same classification; every baseline entry is additionally exercised through the real look-up path (isBlackTag / isBlackAttr per name, token class per keyword, every multi-word key through the folder's merge in four probe frames), once in the fresh process and once more after five look-alikes of every name went through the same look-ups; the tables are digested again at a second quiescent point after ~30 000 calls over the corpus, every tag, event and keyword, and must be unchanged. Before that, six fresh processes make their first look-ups from 16 goroutines at once and compare the tables with the baseline (a table sorted or normalised lazily on first use). Finite and enumerated completely. " +
+		Rule: "all entries of the five live tables (read through the accessors after package initialisation) are checked against the well-formedness predicates; every entry of baseline/tables.json (snapshot of the pinned tree) must be present with the same classification; every baseline entry is additionally exercised through the real look-up path (isBlackTag / isBlackAttr per name, token class per keyword, every multi-word key through the folder's merge in four probe frames and with every white-space byte / comment between its words, every single-word key also between length-changing runes, glued to a 40-byte tail, and 65536 bytes behind an equally long word), once in the fresh process and once more after five look-alikes of every name went through the same look-ups; the tables are digested again at a second quiescent point after ~30 000 calls over the corpus, every tag, event and keyword, and must be unchanged. Before that, six fresh processes make their first look-ups from 16 goroutines at once and compare the tables with the baseline (a table sorted or normalised lazily on first use). Finite and enumerated completely. " +
 			"Non-trivial = every table entry; distinct by table+key.",
 		Plan: func(tier string, seed uint64) []core.Unit { return []core.Unit{{Gen: "tables", Lo: 0, Hi: 1}} },
 		Gen: func(w *core.Worker, u core.Unit, emit func(core.Case)) {
@@ -479,6 +479,33 @@ func exerciseKeyword(k string, cls byte) string {
 			}
 		}
 		return ""
+	}
+	if len(k) >= 2 && len(k) < 31 && isLetter(k[0]) && !strings.ContainsAny(k, " .`") {
+		// the same word in less friendly surroundings: between a rune that
+		// shrinks and one that grows under upper-casing; glued to a long dotted or
+		// back-ticked tail; exactly 65536 bytes behind an equally long plain word
+		probes := []struct{ in, what string }{
+			{"/*\xc4\xb1\xc4\xb1*/ " + lower + " \xff", "between U+0131 U+0131 and an invalid byte"},
+			{"\xc5\xbf \xc9\x90 " + lower + " 1", "after U+017F and U+0250"},
+			{strings.Repeat("q", len(k)) + " /*" + strings.Repeat("c", 65536-len(k)-6) + "*/ " + lower, "65536 bytes behind a plain word of the same length"},
+		}
+		if cls != 'n' {
+			probes = append(probes,
+				struct{ in, what string }{lower + "`" + strings.Repeat("x", 40) + "`", "glued to a 40-byte back-ticked name"},
+				struct{ in, what string }{lower + "." + strings.Repeat("x", 40), "glued to a 40-byte dotted tail"})
+		}
+		for _, pb := range probes {
+			tr := li.VerifSQLTokens(pb.in, li.VerifSQLFlagQuoteNone|li.VerifSQLFlagAnsi)
+			found := false
+			for _, t := range tr.Tokens {
+				if t.Len == len(k) && strings.EqualFold(t.Val, k) && (t.Category == cls || cls == 'n') {
+					found = true
+				}
+			}
+			if !found {
+				return fmt.Sprintf("keyword %q (%q) is not classified as such %s", k, cls, pb.what)
+			}
+		}
 	}
 	tr := li.VerifSQLTokens(lower, li.VerifSQLFlagQuoteNone|li.VerifSQLFlagAnsi)
 	if len(tr.Tokens) == 1 && len(tr.Tokens[0].Val) == len(k) {
